@@ -72,8 +72,11 @@ class TimedEnv(E.ScriptedEnv):
     """ScriptedEnv + scripted sleeps, completion stamps and a few extra observable attributes."""
 
     def __init__(self, env_id=0, obs_kind="box1", act_kind="discrete", script=None, delays=None, unit=0.0,
-                 stamp_path=None):
+                 stamp_path=None, reset_style=0):
         super().__init__(env_id=env_id, obs_kind=obs_kind, act_kind=act_kind, script=script)
+        # 0: informative reset info always; 1: only when a seed / options were delivered, `{}` for an automatic reset;
+        # 2: always `{}` (a non-empty reset info followed by an empty one: seeded changes C01-d, C02-h)
+        self.reset_style = reset_style
         self.delays = delays or []
         self.unit = unit
         self.stamp_path = stamp_path
@@ -95,6 +98,8 @@ class TimedEnv(E.ScriptedEnv):
     def reset(self, *, seed=None, options=None):
         self._nap()
         out = super().reset(seed=seed, options=options)
+        if self.reset_style == 2 or (self.reset_style == 1 and seed is None and not options):
+            out = (out[0], {})
         self._stamp("reset")
         return out
 
@@ -367,8 +372,10 @@ def gen_main(rng, ctx, kind="main"):
             ops.append({"op": "close", "sleep_ms": 0})
     unit_ms = rng.choice([2, 3]) if not ctx.thorough else rng.choice([2, 3, 5])
     depth = [rng.weighted([(0, 5), (1, 3), (2, 2)]) for _ in range(n)]
+    rs = rng.weighted([(0, 4), (1, 4), (2, 1)])
+    reset_style = [rs] * n if rng.chance(0.6) else [rng.weighted([(0, 4), (1, 4), (2, 1)]) for _ in range(n)]
     return {"kind": kind, "n": n, "obs_kind": obs_kind, "act_kind": act_kind, "start": start, "scripts": scripts,
-            "depth": depth,
+            "depth": depth, "reset_style": reset_style,
             "pattern": pat, "delays": delays, "unit_ms": unit_ms, "ops": ops, "npseed": rng.randint(0, 2**31 - 1),
             "sched_seed": rng.randint(0, 2**31 - 1)}
 
@@ -678,7 +685,9 @@ def run_case(ctx, case):
         return True
 
     try:
-        base = [dict(env_id=i, obs_kind=ok, act_kind=case["act_kind"], script=case["scripts"][i]) for i in range(n)]
+        rstyle = case.get("reset_style") or [0] * n
+        base = [dict(env_id=i, obs_kind=ok, act_kind=case["act_kind"], script=case["scripts"][i], reset_style=rstyle[i])
+                for i in range(n)]
         stamp = [os.path.join(tmp, f"env{i}.stamps") for i in range(n)]
         depth = case_depths(case)
         dummy = DummyVecEnv([TimedEnvFn(depth=depth[i], **b) for i, b in enumerate(base)])
@@ -891,7 +900,7 @@ def model_ops(case, outs_s, orders, which):
     rng = Rng(case["sched_seed"])
     depth = case_depths(case)
     lines = [{"op": "new", "envs": [{"env_id": i, "script": [[ratj(F(float(e[0]))), bool(e[1]), bool(e[2])] for e in case["scripts"][i]],
-                                     "some_attr": 100 + i, "depth": depth[i],
+                                     "some_attr": 100 + i, "depth": depth[i], "reset_style": (case.get("reset_style") or [0] * n)[i],
                                      "shadow": [["some_attr", 1000 + i]] if depth[i] >= 1 else []} for i in range(n)]}]
     for k, op in enumerate(case["ops"][: len(outs_s)]):
         sch = sched_observed(op, n, orders[k] if k < len(orders) else []) if which == "observed" else sched_random(rng, op, n)
